@@ -76,7 +76,9 @@ func c08Alphabet() []Action {
 	for _, k := range []string{"k1", "k2", "k3", "k4"} {
 		a = append(a, tcmd("SET", k, "v"), tcmd("SET", k, "v", "EX", "1000"), tcmd("GET", k), tcmd("TOUCH", k))
 	}
-	a = append(a, tcmd("SET", "k1", strings.Repeat("x", 40)), tcmd("DEL", "k2"), tcmd("FLUSHDB"), tcmd("MGET", "k1", "k3"))
+	a = append(a, tcmd("SET", "k1", strings.Repeat("x", 40)), tcmd("DEL", "k2"), tcmd("FLUSHDB"), tcmd("MGET", "k1", "k3"),
+		// multi-key accesses in both orders (one key may be volatile, the other not)
+		tcmd("MGET", "k2", "k1"), tcmd("TOUCH", "k1", "k2"), tcmd("TOUCH", "k3", "k1"))
 	return a
 }
 
@@ -122,9 +124,9 @@ func c08Replay(path []Action) c08Hist {
 		case "SET":
 			h.exists[a.A[1]] = true
 			touch(a.A[1], i)
-		case "GET", "TOUCH":
+		case "GET":
 			touch(a.A[1], i)
-		case "MGET":
+		case "MGET", "TOUCH":
 			for _, k := range a.A[1:] {
 				touch(k, i)
 			}
@@ -196,9 +198,9 @@ func (c08Check) Run(u Unit, w *Worker) UnitResult {
 		// keys the command itself removes / writes
 		own := map[string]bool{}
 		switch name {
-		case "DEL", "SET", "GET", "TOUCH":
+		case "DEL", "SET", "GET":
 			own[act.A[1]] = true
-		case "MGET":
+		case "MGET", "TOUCH":
 			for _, k := range act.A[1:] {
 				own[k] = true
 			}
@@ -228,6 +230,9 @@ func (c08Check) Run(u Unit, w *Worker) UnitResult {
 				if refused {
 					if d := alphaDiff(pre.Alpha, post.Alpha, nil); len(d) > 0 {
 						add("refused-write-changed-state", strings.Join(d, "; "))
+					}
+					if uPost != uPre {
+						add("refused-write-changed-usage", fmt.Sprintf("the refused write moved the reported usage from %d to %d although nothing was written", uPre, uPost))
 					}
 				}
 			}
